@@ -102,7 +102,12 @@ def holds_mutable_objects(model: SrcModel, mod, v: Optional[ast.AST]) -> bool:
         if isinstance(x, ast.Call) and isinstance(x.func, (ast.Name, ast.Attribute)):
             res = model.resolve_expr(mod, x.func)
             last = (dotted(x.func) or "").split(".")[-1]
-            if isinstance(res, FuncDef) or not last[:1].isupper():
+            if isinstance(res, FuncDef):
+                ret_ = norm(res.node.returns) if res.node.returns is not None else ""
+                if "Tree" in ret_ or (res.node.returns is not None and builds_objects(model, res.module, ast.Call(func=res.node.returns, args=[], keywords=[])) if isinstance(res.node.returns, (ast.Name, ast.Attribute)) else False):
+                    return True  # a repo function annotated to return a lark Tree / a model object: evaluated once, shared afterwards
+                continue
+            if not last[:1].isupper():
                 continue
             if last in ("MappingProxyType", "Final", "frozenset", "Token"):
                 continue
